@@ -472,8 +472,13 @@ def check_creds(ctx):
             if c.kind == 'test' and not c.pol and isinstance(
                     e, ast.Call) and U(e.func) == 'isinstance' and len(
                         e.args) == 2 and U(e.args[0]) == 'creds':
-                ts = e.args[1].elts if isinstance(
-                    e.args[1], ast.Tuple) else [e.args[1]]
+                a1 = e.args[1]
+                if isinstance(a1, (ast.Name, ast.Attribute)):
+                    c_ = prog.const_expr(t.module_of(c.frame), a1,
+                                         names_ok=True)
+                    if isinstance(c_, ast.Tuple):
+                        a1 = c_
+                ts = a1.elts if isinstance(a1, ast.Tuple) else [a1]
                 out |= {U(x).rsplit('.', 1)[-1] for x in ts}
         return out
     okg = bool(raises) and all(
